@@ -360,6 +360,9 @@ def run_history(history, instances=2):
 
 
 def prop(case):
+    if case.get("kind") == "residue":
+        return residue_prop(case["states"],
+                            [tuple(x) for x in case["fails"]])
     hist = [(w, tuple(c)) for w, c in case["history"]]
     return run_history(hist, case.get("instances", 2))
 
@@ -489,6 +492,180 @@ def part_random(part, n, maxlen):
     part.hyp(tapes(300), body, n)
 
 
+# ------------------------------------------------------ residue differential
+
+# commands that succeed and build up a session of many kinds of definitions
+RES_STATE = [
+    "def q0 = 1", "'doc q1' def q1 = [1, 2]", "'doc f0' def f0(x) x + 1",
+    "def f1 = f0", "def o0 = <*a = 1, _str_ = fn(self) 'O' + self->a*>",
+    "def class K0 do def _init_(self, v) self->v = v; def get(self) self->v end",
+    "def k0 = new(K0, 5); k0->get()", "def m0 = <<<'a' => 1>>>",
+    "def s0 = <<1, 2>>", "q0 = 7", "append(q1, 3)", "require Math; Math->PI",
+    "'other doc' def f0(x) x * 2", "def [d0, d1] = [1, 2]; d1",
+    "'doc g0' def g0 = fn(a, b = 2) a + b", "def t0 = 'text'",
+    "m0['b'] = 2", "o0->a = 3", "require List as L0; 1",
+    "def n0 = NULL", "for i in [1, 2] do q0 = i end",
+    "'doc n1' def n1 = NULL", "'doc b1' def b1 = TRUE", "def g1 = g0",
+    "def alias_sorted = sorted; 1", "def [f2, f3] = [f0, g0]; 1",
+]
+# command index -> (name, doc string) for the definitions that carry one
+RES_DOCS = {1: ("q1", "doc q1"), 2: ("f0", "doc f0"), 12: ("f0", "other doc"),
+            14: ("g0", "doc g0")}
+# commands that fail before they have defined or changed anything
+RES_FAIL = [
+    "1 / 0", "undefined_zz", "def z0 = undefined_zz", "def [za, zb] = f0",
+    "def [za, zb] = 5", "'doc z' def [za, zb] = NULL", "q0 = undefined_zz",
+    "[q0, t0] = 5", "for zx in 5 do 1 end", "error 'e'",
+    "def z1 = do break end", "require nosuch_module", "f0(1, 2, 3)",
+    "def class Z0 do def v = 1 / 0 end", "'doc z' def z2 = undefined_zz",
+    "q1[99] = 1", "t0->zz = 1", "append(undefined_zz, 1)",
+    "q0 += undefined_zz", "eval('1 +')", "[zy for zy in q1 if zy / 0]",
+    "for zx in [1, 2] do error 'x' end", "def z3 = new(K0)",
+    "sorted([2, 1], cmp = fn(a, b) error 'c')", "def f0(x) (", "f0 = (",
+    "'doc z' def [za, zb] = t0", "'doc z' def [za, zb] = f1",
+    "'doc z' f0(1, 2, 3)", "def z4 = [1, 2][5]", "m0['zz']",
+    "def [za, zb] = [1, undefined_zz]", "o0->zz()", "K0->nothing()",
+    "require nosuch_module as f0",
+    "(fn(a) a)()", "'doc z' def z6 = 1 / 0",
+    "if undefined_zz then def z7 = 1", "while undefined_zz do def z8 = 1 end",
+    "do error 'a' catch 'b' 1 end", "do 1 / 0 finally 2 end",
+]
+
+
+def _snapshot(it):
+    """Everything a later call could observe: the session's names with kind,
+    rendering and doc string, the same for the base environment, the loaded
+    modules and process-level settings."""
+    import sys as _sys
+    def one(v):
+        try:
+            text = str(v)
+        except Exception as e:          # noqa
+            text = f"<{type(e).__name__}>"
+        return (type(v).__name__, text[:200], getattr(v, "info", None) or "")
+    snap = {}
+    for name, v in it.environment.map.items():
+        snap["session:" + name] = one(v)
+    for name, v in it.base_environment.map.items():
+        snap["base:" + name] = one(v)
+    snap["modules"] = tuple(sorted(it.base_environment.modules))
+    snap["modulestack"] = tuple(it.base_environment.modulestack)
+    snap["reclimit"] = _sys.getrecursionlimit()
+    snap["cwd"] = os.getcwd()
+    return snap
+
+
+def residue_prop(states, fails):
+    """states: indices into RES_STATE; fails: [(position, index into
+    RES_FAIL)].  The session with the failing commands inserted must give the
+    same results for all other commands and end in the same observable state
+    as the session without them; a failing command repeated at once fails
+    the same way."""
+    from ckl.interpreter import Interpreter
+    scratch_home()
+
+    other = Interpreter(False, False)
+    other_before = _snapshot(other)
+
+    def play(with_fails):
+        it = Interpreter(False, False)
+        results = []
+        for pos in range(len(states) + 1):
+            if with_fails:
+                for fp, fi in fails:
+                    if fp == pos:
+                        r1 = observe(it, RES_FAIL[fi])
+                        r2 = observe(it, RES_FAIL[fi])
+                        if r1[0] not in ("error", "syntax"):
+                            return None, ("not-failing", RES_FAIL[fi], r1)
+                        if r1 != r2:
+                            return None, ("repeat", RES_FAIL[fi], r1, r2)
+            if pos < len(states):
+                results.append(repr(observe(it, RES_STATE[states[pos]])))
+        docs = {}
+        for k in states:
+            if k in RES_DOCS:
+                docs[RES_DOCS[k][0]] = RES_DOCS[k][1]
+        for name, doc in sorted(docs.items()):
+            got = observe(it, f"info({name})")
+            if got[:2] != ("value", doc):
+                return None, ("doc", name, doc, got)
+        return (results, _snapshot(it)), None
+
+    base, _ = play(False)
+    test, problem = play(True) if base is not None else (None, None)
+    text = " ;; ".join(
+        [x for pos in range(len(states) + 1)
+         for x in ([f"<<FAILS>> {RES_FAIL[fi]}" for fp, fi in fails
+                    if fp == pos]
+                   + ([RES_STATE[states[pos]]] if pos < len(states) else []))])
+    if base is None:
+        test, problem = None, _
+    if problem is None and _snapshot(other) != other_before:
+        after = _snapshot(other)
+        diff = [(k, other_before.get(k), after.get(k)) for k in sorted(after)
+                if other_before.get(k) != after.get(k)]
+        return Finding("C10|instances|another-interpreter-changed",
+                       f"{text}: an interpreter that ran nothing sees "
+                       f"{diff[:3]!r} (before / after)")
+    if problem:
+        if problem[0] == "doc":
+            return Finding("C10|definition-lost|doc-string|" + problem[1],
+                           f"{text}: info({problem[1]}) is {problem[3][:2]!r}, "
+                           f"defined with {problem[2]!r}")
+        if problem[0] == "not-failing":
+            return Finding("C10|residue|command-did-not-fail|" + problem[1],
+                           f"{text}: {problem[1]!r} gave {problem[2][:2]!r}")
+        return Finding("C10|residue|repeated-failure-differs|" + problem[1],
+                       f"{text}: first {problem[2]!r}, repeated {problem[3]!r}")
+    if base[0] != test[0]:
+        k = next(i for i, (a, b) in enumerate(zip(base[0], test[0])) if a != b)
+        return Finding("C10|residue|later-command-differs",
+                       f"{text}: {RES_STATE[states[k]]!r} gives {test[0][k]!r}, "
+                       f"without the failing commands {base[0][k]!r}")
+    if base[1] != test[1]:
+        keys = sorted(set(base[1]) | set(test[1]))
+        diff = [(k, base[1].get(k), test[1].get(k)) for k in keys
+                if base[1].get(k) != test[1].get(k)]
+        return Finding("C10|residue|state-differs|" + diff[0][0].split(":")[0],
+                       f"{text}: {diff[:3]!r} (without / with the failing "
+                       f"commands)")
+    return None
+
+
+def part_residue(part, n):
+    def body(tape):
+        ch = TapeChooser(tape)
+        ln = ch.int(2, 8)
+        states = [ch.int(0, len(RES_STATE) - 1) for _ in range(ln)]
+        fails = sorted((ch.int(0, ln), ch.int(0, len(RES_FAIL) - 1))
+                       for _ in range(ch.int(1, 3)))
+        part.count()
+        part.nontriv((tuple(states), tuple(fails)))
+        part.cls("residue:" + str(len(fails)) + "-failing-commands",
+                 RES_FAIL[fails[0][1]] if part.evaluations % 20 == 0 else None)
+        f = residue_prop(states, fails)
+        if f:
+            return f, {"kind": "residue", "states": states,
+                       "fails": [list(x) for x in fails]}
+    part.hyp(tapes(64), body, n)
+
+
+def part_residue_each(part):
+    """Every failing command once, after the whole list of defining commands
+    and between its two halves."""
+    allst = list(range(len(RES_STATE)))
+    for fi in range(len(RES_FAIL)):
+        for pos in (len(allst), len(allst) // 2):
+            part.count()
+            part.nontriv((fi, pos))
+            f = residue_prop(allst, [(pos, fi)])
+            part.collect(f, {"kind": "residue", "states": allst,
+                             "fails": [[pos, fi]]})
+    part.cls("residue:each-failing-command", RES_FAIL[3])
+    part.exhaustive = True
+
+
 def parts(tier, seed):
     if tier == "quick":
         ps = [(f"exh3-{i}", part_exhaustive,
@@ -497,6 +674,8 @@ def parts(tier, seed):
                for i in range(8)]
         ps += [(f"two3-{i}", part_exhaustive_two,
                 {"length": 3, "shard": i, "nshards": 4}) for i in range(4)]
+        ps += [("residue-each", part_residue_each, {})]
+        ps += [(f"residue-{i}", part_residue, {"n": 150}) for i in range(4)]
     else:
         ps = [(f"exh5-{i}", part_exhaustive,
                {"length": 5, "shard": i, "nshards": 16}) for i in range(16)]
@@ -504,4 +683,6 @@ def parts(tier, seed):
                for i in range(8)]
         ps += [(f"two4-{i}", part_exhaustive_two,
                 {"length": 4, "shard": i, "nshards": 8}) for i in range(8)]
+        ps += [("residue-each", part_residue_each, {})]
+        ps += [(f"residue-{i}", part_residue, {"n": 4000}) for i in range(8)]
     return ps
